@@ -44,6 +44,11 @@ def run(tier, seed):
         # the preview works on the accepted view: the targets must be unique there too, and marker-free (formatting markers aside)
         if any(clean.count(e[0]) != 1 or any(ch in e[0] + e[1] for ch in '*_{}') for e in edits): continue
         cases.append((d, b, edits))
+    corpus = []
+    for fid, case in core.finding_cases('C15'):       # recorded inputs (known findings and repaired defects) run first
+        if case and 'doc' in case and 'edits' in case:
+            d = dict(case['doc']); d.setdefault('features', []); corpus.append((d, A.build(d), [tuple(e) for e in case['edits']]))
+    cases = corpus + cases
     with Pool(core.NPROC, initializer=docrun.impl_init) as pool:
         res = pool.map(work, [(b, e) for d, b, e in cases], chunksize=8)
     mres = E.run_cases([(d, e) for d, b, e in cases])
@@ -64,8 +69,8 @@ def run(tier, seed):
                 acc_prev, _, wf = C14.read_view(r['preview'], 'accept')
                 if strip_markers(acc_prev) != strip_markers(r['final']):
                     fail = 'preview read with all suggestions accepted differs from the accepted view of the committed document: ' + json.dumps(docrun.first_diff(strip_markers(r['final']), strip_markers(acc_prev)))
-            f, kn = J.classify(c, fail)
-            if f and not kn and 'caps_heading' in d.get('features', []) and re.sub(r'(?m)^#+ ', '', strip_markers(C14.read_view(r['preview'], 'accept')[0])) == re.sub(r'(?m)^#+ ', '', strip_markers(r['final'])): kn = ('D42', 'the heuristic heading prefix of an all-caps bold paragraph changes with its text')
+            f, kn = J.classify(c, fail, meta_region=True)
+            if f and not kn and J.bold_led_para(d) and re.sub(r'(?m)^#+ ', '', strip_markers(C14.read_view(r['preview'], 'accept')[0])) == re.sub(r'(?m)^#+ ', '', strip_markers(r['final'])): kn = ('D42', 'the heuristic heading prefix of an all-caps bold paragraph changes with its text')
         if f and kn: ck.known(kn[0], kn[1], case)
         elif f: ck.violation('oracle', dict(case, preview=r.get('preview'), committed=r.get('final')), f)
         if not r['err'] and r['r']['ap']: distinct.add(json.dumps(case, sort_keys=True)[:2000])
